@@ -48,8 +48,8 @@ impl DynamicTypeItem {
         };
 
         let (mut search_index, is_upgrade) = match source_type.index > target_type.index {
-            true => (source_type.index - 1, false),
-            false => (source_type.index + 1, true)
+            true => (source_type.index.checked_sub(1)?, false),
+            false => (source_type.index.checked_add(1)?, true)
         };
 
         loop {
@@ -68,14 +68,14 @@ impl DynamicTypeItem {
                 None => return None
             };
 
-            search_index = match source_type.index > target_type.index {
-                true => search_index - 1,
-                false => search_index + 1
-            };
-            
             if next_item.index == target_type.index {
                 break;
             }
+
+            search_index = match source_type.index > target_type.index {
+                true => search_index.checked_sub(1)?,
+                false => search_index.checked_add(1)?
+            };
             
         }
         
